@@ -8,9 +8,12 @@
 (*                             reads the list again                                             *)
 (*   ReloadOnAcquire = FALSE - the code as found: the second instance persists its stale list,  *)
 (*                             files of the first writer drop out of it and are never collected *)
-EXTENDS Naturals, FiniteSets
+EXTENDS Naturals, FiniteSets, TLC
 
-CONSTANTS Inst, MaxFiles, ReloadOnAcquire
+CONSTANTS Inst, MaxFiles, ReloadOnAcquire,
+          AtomicReload,   \* TRUE (code): the list is read and installed in one critical section of the instance's
+                          \* managed-paths lock | FALSE (first version of the repair): read, then install
+          MaxZombie       \* files a merge thread that outlived its writer may still register and create (same instance)
 
 VARIABLES
   holder,    \* instance holding the writer lock, or "none"
@@ -18,51 +21,73 @@ VARIABLES
   man,       \* the persisted managed list (.managed.json)
   exists,    \* files in the directory
   living,    \* files of the committed segments (what meta.json references)
-  nextF
-vars == <<holder, mem, man, exists, living, nextF>>
+  nextF,
+  tmp,       \* instance in the middle of a non-atomic reload -> the list it has read (else not in DOMAIN)
+  zleft      \* zombie budget
+vars == <<holder, mem, man, exists, living, nextF, tmp, zleft>>
 
 Init ==
   /\ holder = "none" /\ mem = [i \in Inst |-> {}] /\ man = {} /\ exists = {} /\ living = {} /\ nextF = 1
+  /\ tmp = <<>> /\ zleft = MaxZombie
 
 \* Index::writer: take the lock (and, since the repair, read the managed list again)
 Acquire(i) ==
   /\ holder = "none" /\ holder' = i
-  /\ mem' = IF ReloadOnAcquire THEN [mem EXCEPT ![i] = man] ELSE mem
-  /\ UNCHANGED <<man, exists, living, nextF>>
+  /\ IF ReloadOnAcquire /\ ~AtomicReload
+     THEN tmp' = (i :> man) /\ UNCHANGED mem               \* the list is read now, installed in a later step
+     ELSE /\ mem' = IF ReloadOnAcquire THEN [mem EXCEPT ![i] = man] ELSE mem
+          /\ UNCHANGED tmp
+  /\ UNCHANGED <<man, exists, living, nextF, zleft>>
+Install(i) ==
+  /\ i \in DOMAIN tmp
+  /\ mem' = [mem EXCEPT ![i] = tmp[i]]
+  /\ tmp' = <<>>
+  /\ UNCHANGED <<holder, man, exists, living, nextF, zleft>>
+
+\* a merge thread of instance i's PREVIOUS writer is still running (drop does not wait for it): it
+\* registers and creates a file of a merged segment that will never be published
+ZombieCreate(i) ==
+  /\ holder = i /\ zleft > 0 /\ nextF <= MaxFiles
+  /\ mem' = [mem EXCEPT ![i] = @ \cup {nextF}]
+  /\ man' = mem'[i]
+  /\ exists' = exists \cup {nextF}
+  /\ nextF' = nextF + 1 /\ zleft' = zleft - 1
+  /\ UNCHANGED <<holder, living, tmp>>
 
 \* a segment file: registered (list persisted from the in-memory copy), then created; the commit
 \* that makes it live is folded in
 CreateFile(i) ==
-  /\ holder = i /\ nextF <= MaxFiles
+  /\ holder = i /\ nextF <= MaxFiles /\ i \notin DOMAIN tmp
   /\ mem' = [mem EXCEPT ![i] = @ \cup {nextF}]
   /\ man' = mem'[i]
   /\ exists' = exists \cup {nextF}
   /\ living' = living \cup {nextF}
   /\ nextF' = nextF + 1
-  /\ UNCHANGED holder
+  /\ UNCHANGED <<holder, tmp, zleft>>
 
 \* a merge or a delete makes some live files garbage
 Obsolete(i) ==
   /\ holder = i
   /\ \E S \in (SUBSET living) \ {{}} : living' = living \ S
-  /\ UNCHANGED <<holder, mem, man, exists, nextF>>
+  /\ UNCHANGED <<holder, mem, man, exists, nextF, tmp, zleft>>
 
 \* garbage_collect: delete the managed files that are not living, persist the shortened list
 Collect(i) ==
-  /\ holder = i
+  /\ holder = i /\ i \notin DOMAIN tmp
   /\ LET dead == mem[i] \ living IN
      /\ exists' = exists \ dead
      /\ mem' = [mem EXCEPT ![i] = @ \ dead]
      /\ man' = IF dead # {} THEN mem'[i] ELSE man
-  /\ UNCHANGED <<holder, living, nextF>>
+  /\ UNCHANGED <<holder, living, nextF, tmp, zleft>>
 
 \* the writer is dropped after a last collection (wait_merging_threads + commit's collection)
 Release(i) ==
-  /\ holder = i /\ mem[i] \ living = {}
+  /\ holder = i /\ mem[i] \ living = {} /\ i \notin DOMAIN tmp
   /\ holder' = "none"
-  /\ UNCHANGED <<mem, man, exists, living, nextF>>
+  /\ zleft' = MaxZombie
+  /\ UNCHANGED <<mem, man, exists, living, nextF, tmp>>
 
-Next == \E i \in Inst : Acquire(i) \/ CreateFile(i) \/ Obsolete(i) \/ Collect(i) \/ Release(i)
+Next == \E i \in Inst : Acquire(i) \/ Install(i) \/ ZombieCreate(i) \/ CreateFile(i) \/ Obsolete(i) \/ Collect(i) \/ Release(i)
 Spec == Init /\ [][Next]_vars
 
 TypeOK == holder \in Inst \cup {"none"} /\ man \subseteq 1..MaxFiles /\ exists \subseteq 1..MaxFiles
